@@ -158,7 +158,14 @@ def operation_discipline(P, rep, rule="R1"):
                                 for y in F.walk(st):
                                     if y.get("k") == "ReturnStmt" and y.get("c") and not astq.enclosing(F, y, ("LambdaExpr",)) \
                                             and (astq.is_ref_to(sc(y["c"][0]), inc) or is_unmodified_copy(P, F, sc(y["c"][0]), inc, y)):
-                                        early.append(y)
+                                        # a guard clause on the model's range (`if (!(in range)) return incoming;`) leaves the range; what
+                                        # matters is a return that depends on whether the composition is listed, or on nothing at all
+                                        conds = [a_["c"][0] for a_ in F.ancestors(y) if a_.get("k") == "IfStmt" and any(z is a_ for z in F.walk(st))]
+                                        listed = any(("compositions" in norm.render(P, c_)) or any(
+                                            z.get("k") == "DeclRefExpr" and z.get("r") in F.params and "composition" in (P.d(z["r"]).get("n") or "")
+                                            and z.get("r") != inc for z in F.walk(c_)) for c_ in conds)
+                                        if listed or not conds:
+                                            early.append(y)
             if len(clears) != 1:
                 bad.append((F.body, "no `if (operation == REPLACE) return 0.0;` after the loop over the listed compositions (unlisted compositions are not cleared by replace)"))
                 rep.violation(rule, "%s: %s" % (F.qn, bad[-1][1]), F.loc, F.qn, "", "operation replace does not clear the compositions the model does not list",
